@@ -6,24 +6,29 @@ any module changes the 32-bit value.
 -/
 namespace LyModel.Ctx
 
+variable (rs : Bool)
+
+/-- the index the feature iterator starts a module with -/
+def fiIn (rs : Bool) (fi : Nat) : Nat := if rs then 0 else fi
+
 /-- the feature-iterator index after the modules of `l` -/
-def fiAfter : List Mod → Nat → Nat
+def fiAfter (rs : Bool) : List Mod → Nat → Nat
   | [], fi => fi
-  | m :: r, fi => fiAfter r (hashFeats m fi).2
+  | m :: r, fi => fiAfter rs r (hashFeats m (fiIn rs fi)).2
 
 /-- the parts one module contributes when the iterator index arrives with value `fi`, without the `implemented` byte -/
-def modPartsHead (m : Mod) (fi : Nat) : List Bytes :=
-  [m.src.name] ++ (if m.src.rev.isEmpty then [] else [m.src.rev]) ++ ((hashFeats m fi).1.filter (·.on)).map (·.name)
+def modPartsHead (rs : Bool) (m : Mod) (fi : Nat) : List Bytes :=
+  [m.src.name] ++ (if m.src.rev.isEmpty then [] else [m.src.rev]) ++ ((hashFeats m (fiIn rs fi)).1.filter (·.on)).map (·.name)
 
 def implByte (m : Mod) : UInt8 := if m.implemented then 1 else 0
 
 theorem hashParts_cons (m : Mod) (r : List Mod) (fi : Nat) :
-    hashParts (m :: r) fi = modPartsHead m fi ++ [[implByte m]] ++ hashParts r (hashFeats m fi).2 := by
-  simp [hashParts, modPartsHead, implByte]
+    hashPartsG rs (m :: r) fi = modPartsHead rs m fi ++ [[implByte m]] ++ hashPartsG rs r (hashFeats m (fiIn rs fi)).2 := by
+  simp [hashPartsG, modPartsHead, implByte, fiIn]
 
-theorem hashParts_append (l1 l2 : List Mod) : ∀ fi, hashParts (l1 ++ l2) fi = hashParts l1 fi ++ hashParts l2 (fiAfter l1 fi) := by
+theorem hashParts_append (l1 l2 : List Mod) : ∀ fi, hashPartsG rs (l1 ++ l2) fi = hashPartsG rs l1 fi ++ hashPartsG rs l2 (fiAfter rs l1 fi) := by
   induction l1 with
-  | nil => intro fi; simp [hashParts, fiAfter]
+  | nil => intro fi; simp [hashPartsG, fiAfter]
   | cons m r ih =>
     intro fi
     rw [List.cons_append, hashParts_cons, hashParts_cons, ih, fiAfter]
@@ -59,9 +64,9 @@ theorem hashFeats_sub (m : Mod) (fi : Nat) : ∀ f ∈ (hashFeats m fi).1, f ∈
     obtain ⟨l, hl, hfl⟩ := hf
     exact ⟨l, List.mem_of_mem_drop hl, hfl⟩
 
-theorem hashParts_nonempty (l : List Mod) (hw : WfNames l) : ∀ fi, ∀ p ∈ hashParts l fi, p ≠ [] := by
+theorem hashParts_nonempty (l : List Mod) (hw : WfNames l) : ∀ fi, ∀ p ∈ hashPartsG rs l fi, p ≠ [] := by
   induction l with
-  | nil => intro fi p hp; simp [hashParts] at hp
+  | nil => intro fi p hp; simp [hashPartsG] at hp
   | cons m r ih =>
     intro fi p hp
     rw [hashParts_cons] at hp
@@ -76,14 +81,14 @@ theorem hashParts_nonempty (l : List Mod) (hw : WfNames l) : ∀ fi, ∀ p ∈ h
         · cases hp
         · next hr => simp only [List.mem_singleton] at hp; rw [hp]; intro h; simp [h] at hr
       · obtain ⟨f, ⟨hf, _⟩, rfl⟩ := hp
-        exact hm.2 f (hashFeats_sub m fi f hf)
+        exact hm.2 f (hashFeats_sub m _ f hf)
     · rw [hp]; simp
     · exact ih (fun m' hm' => hw m' (List.mem_cons_of_mem _ hm')) _ p hp
 
 theorem modulesHash_eq (s : Ctx) (hw : WfNames s.mods) :
-    s.modulesHash = Jenkins.finish (Jenkins.absorbAll 0 (hashParts s.mods 0).flatten) := by
-  unfold Ctx.modulesHash
-  rw [foldl_multi_eq _ (hashParts_nonempty _ hw 0)]
+    s.modulesHashG rs = Jenkins.finish (Jenkins.absorbAll 0 (hashPartsG rs s.mods 0).flatten) := by
+  unfold Ctx.modulesHashG
+  rw [foldl_multi_eq _ (hashParts_nonempty rs _ hw 0)]
   rfl
 
 /-- flipping `implemented` of one module -/
@@ -101,15 +106,15 @@ theorem wfNames_flip {pre suf : List Mod} {m : Mod} (h : WfNames (pre ++ m :: su
 
 /-- **the 32-bit value changes when `implemented` of any one module is flipped** (everything else equal) -/
 theorem hash_flip_implemented (s s' : Ctx) (pre suf : List Mod) (m : Mod) (hs : s.mods = pre ++ m :: suf)
-    (hs' : s'.mods = pre ++ flipImpl m :: suf) (hw : WfNames s.mods) : s.modulesHash ≠ s'.modulesHash := by
+    (hs' : s'.mods = pre ++ flipImpl m :: suf) (hw : WfNames s.mods) : s.modulesHashG rs ≠ s'.modulesHashG rs := by
   have hw' : WfNames s'.mods := by rw [hs']; rw [hs] at hw; exact wfNames_flip hw
-  rw [modulesHash_eq s hw, modulesHash_eq s' hw', hs, hs']
+  rw [modulesHash_eq rs s hw, modulesHash_eq rs s' hw', hs, hs']
   rw [hashParts_append, hashParts_append, hashParts_cons, hashParts_cons]
-  have h1 : modPartsHead (flipImpl m) (fiAfter pre 0) = modPartsHead m (fiAfter pre 0) := rfl
+  have h1 : modPartsHead rs (flipImpl m) (fiAfter rs pre 0) = modPartsHead rs m (fiAfter rs pre 0) := rfl
   rw [h1, fiAfter_flip]
   simp only [List.flatten_append, List.flatten_cons, List.flatten_nil, List.append_nil, List.append_assoc,
     List.singleton_append]
-  rw [← List.append_assoc (hashParts pre 0).flatten, ← List.append_assoc (hashParts pre 0).flatten]
+  rw [← List.append_assoc (hashPartsG rs pre 0).flatten, ← List.append_assoc (hashPartsG rs pre 0).flatten]
   apply Jenkins.one_byte_change
   unfold implByte flipImpl
   cases m.implemented <;> simp
